@@ -148,6 +148,37 @@ def rule_server_side(ctx):
                 ctx.violation("C08.d", "cursor", "FakeSnowflakeCursor.execute", f"{style}: {pr[:80]}", "fakesnow/cursor.py",
                               f"paramstyle {style}: {pr}")
     ctx.floor("C08.d traces", n, 2)
+    # select upper(?), ?: the n-th value binds to the n-th placeholder of the statement *text*; if the cursor numbers them,
+    # the numbers follow the written order, whatever the nesting depth (a tree search visits ph2 before ph1)
+    m = 0
+    for tr in run_execute(prog, "SELECT placeholders", None, params=PARAMS, paramstyle="qmark"):
+        st = getattr(tr.hooks, "stmt", None)
+        if st is None or tr.path.outcome != "return":
+            continue
+        m += 1
+        phs = []
+
+        def walk(x, depth=0):
+            if isinstance(x, NodeV):
+                if x.cls == "Placeholder":
+                    phs.append(x)
+                if depth < 12:
+                    for k_, a_ in x.args.items():
+                        if ":" not in k_:
+                            walk(a_, depth + 1)
+            elif isinstance(x, (Lst, Tup)):
+                for a_ in x.items:
+                    walk(a_, depth + 1)
+        walk(st)
+        got = {x.name: x.args.get("this") for x in phs}
+        nums = {k: (v.v if isinstance(v, Const) else tagof(v)) for k, v in got.items() if v is not None and not (isinstance(v, Const) and not v.v)}
+        ok = not nums or (str(nums.get("ph1")) == "1" and str(nums.get("ph2")) == "2")
+        ctx.ob("C08.d", "select upper(?), ?: placeholders stay positional, or are numbered in written order", ok, "fakesnow/cursor.py", str(nums))
+        if not ok:
+            ctx.violation("C08.d", "cursor", "FakeSnowflakeCursor.execute", f"placeholders numbered out of written order {nums}", "fakesnow/cursor.py",
+                          f"for `select upper(?), ?` the placeholders are rewritten to {nums}: the first value of the caller's sequence is bound "
+                          f"to the second `?` and vice versa (numbering by tree depth instead of position in the text)")
+    ctx.floor("C08.d nested-placeholder traces", m, 1)
     # C08.c snapshot: the constructor stores snowflake.connector.paramstyle
     from ..connectmodel import Point, run_point_states
     from ..values import Ext
